@@ -1,11 +1,14 @@
 (* C19 — GBS application helpers are combinatorially exact and structurally sound.
    Only statements, closed by `exact`, each followed by its axiom audit.
    Models: C19/Similarity.v (similarity.py, sample.py), C19/Clique.v (clique.py), C19/Subgraph.v (subgraph.py).
-   `fixed = false` is the source as it stands, `fixed = true` the documented rule (weight-mode indexing).
-   Theorems named *_refuted exhibit inputs on which the faithful model breaks the property (recorded in
-   known_findings.d/C19.json).  What stays outside a theorem is listed at the end (C19 is `_partial`). *)
+   The models are of the source as it stands after the /repo commits 87b9aa4 (exact cardinalities), 5c60841
+   (weight-mode indexing) and eefbefe (is_clique ignores self-loops): `shrink_cur`, `shrink_index_cur`, `resize_cur`,
+   `grow_index_cur` are the `fixed := true` instances.  Theorems named *_refuted are either about a defect that is
+   still present (orbits(0), recorded in known_findings.d/C19.json) or about an explicitly named OLD variant
+   (`*_pre<commit>`, `fixed := false`), kept so the old behaviour stays machine-refuted.
+   What stays outside a theorem is listed at the end (C19 is `_partial`). *)
 From Coq Require Import List Arith NArith ZArith Bool Permutation.
-From SFV Require Import C19.Similarity C19.SimilarityProofs C19.SimilarityBounded
+From SFV Require Import C19.Similarity C19.SimilarityProofs C19.OrbitsComplete C19.SimilarityBounded
                         C19.Clique C19.CliqueProofs C19.Subgraph C19.SubgraphProofs C19.Extra.
 Import ListNotations.
 
@@ -20,14 +23,16 @@ Theorem C19_orbits_zero_refuted : exists o, In o (orbits 0) /\ ~ is_partition 0 
 Proof. exact orbits_zero_refuted. Qed.
 Print Assumptions C19_orbits_zero_refuted.
 
-(* for 1 <= n <= 40 every partition of n is yielded, exactly once (the reference enumerator is proved
-   complete for all n; the bound comes from the vm_compute certificate) *)
-Theorem C19_orbits_complete_bounded : forall n l, 1 <= n <= 40 -> is_partition n l -> In l (orbits n) /\ NoDup (orbits n).
-Proof. exact orbits_complete_bounded. Qed.
-Print Assumptions C19_orbits_complete_bounded.
+(* every partition of n is yielded (unbounded; simulation of Kelleher's loop against a recursive specification,
+   with the bound 2^(n-1) on the number of outer passes as the termination argument) ... *)
+Theorem C19_orbits_complete : forall n l, 1 <= n -> is_partition n l -> In l (orbits n).
+Proof. exact orbits_complete. Qed.
+Print Assumptions C19_orbits_complete.
 
-(* the unbounded statement: NOT proved (needs the termination/lexicographic-successor argument of Kelleher's loop) *)
-Definition C19_orbits_complete_full_statement : Prop := orbits_complete_statement.
+(* ... exactly once *)
+Theorem C19_orbits_nodup : forall n, 1 <= n -> NoDup (orbits n).
+Proof. exact orbits_nodup. Qed.
+Print Assumptions C19_orbits_nodup.
 
 (* ============ similarity.py: conversions ============ *)
 Theorem C19_sample_to_orbit_is_partition : forall s, is_partition (list_sum s) (sample_to_orbit s).
@@ -66,23 +71,28 @@ Print Assumptions C19_orbit_cardinality_multinomial.
 
 (* = number of samples in the orbit, by exhaustive enumeration, 1..6 photons, <= 5 modes *)
 Theorem C19_orbit_cardinality_counts_bounded : forall k m o,
-  1 <= k <= 6 -> m <= 5 -> In o (orbits k) -> length o <= m -> orbit_cardinality o m = samples_in_orbit o m k.
+  1 <= k <= 6 -> m <= 5 -> In o (orbits k) -> orbit_cardinality o m = samples_in_orbit o m k.
 Proof. exact orbit_cardinality_counts_bounded. Qed.
 Print Assumptions C19_orbit_cardinality_counts_bounded.
 
 Theorem C19_event_cardinality_counts_bounded : forall k c m,
-  1 <= k <= m -> m <= 5 -> 1 <= c <= 5 -> event_cardinality k c m = samples_in_event k c m.
+  1 <= k <= 5 -> m <= 5 -> 1 <= c <= 5 -> event_cardinality k c m = samples_in_event k c m.
 Proof. exact event_cardinality_counts_bounded. Qed.
 Print Assumptions C19_event_cardinality_counts_bounded.
 
-(* k <= m is needed: with fewer modes than photons orbits longer than the mode count are counted *)
-Theorem C19_event_cardinality_short_modes_refuted :
-  exists k c m, 1 <= k /\ 1 <= m /\ event_cardinality k c m <> samples_in_event k c m.
-Proof. exact event_cardinality_short_modes_refuted. Qed.
-Print Assumptions C19_event_cardinality_short_modes_refuted.
+(* with more parts than modes the orbit is empty *)
+Theorem C19_orbit_cardinality_short : forall o m, m < length o -> orbit_cardinality o m = 0%N.
+Proof. exact orbit_cardinality_short. Qed.
+Print Assumptions C19_orbit_cardinality_short.
+
+(* OLD variant (before 87b9aa4): orbits longer than the mode count were counted *)
+Theorem C19_event_cardinality_pre87b9aa4_refuted :
+  exists k c m, 1 <= k /\ 1 <= m /\ event_cardinality_pre87b9aa4 k c m <> samples_in_event k c m.
+Proof. exact event_cardinality_pre87b9aa4_refuted. Qed.
+Print Assumptions C19_event_cardinality_pre87b9aa4_refuted.
 
 Definition C19_cardinality_full_statement : Prop :=
-  forall k m o, 1 <= k -> In o (orbits k) -> length o <= m -> orbit_cardinality o m = samples_in_orbit o m k.
+  forall k m o, 1 <= k -> In o (orbits k) -> orbit_cardinality o m = samples_in_orbit o m k.
 
 (* ============ sample.py ============ *)
 Theorem C19_postselect_spec : forall samples lo hi s,
@@ -100,24 +110,17 @@ Proof. exact to_subgraph_spec. Qed.
 Print Assumptions C19_to_subgraph_spec.
 
 (* ============ clique.py ============ *)
-(* on a simple graph the edge-count test decides cliques *)
+(* the edge-count test (self-loops not counted) decides cliques, on every undirected graph *)
 Theorem C19_is_clique_spec : forall adj,
-  (forall u v, adj u v = adj v u) -> (forall u, adj u u = false) ->
-  forall l, NoDup l -> (is_clique adj l = true <-> clique_set adj l).
+  (forall u v, adj u v = adj v u) -> forall l, NoDup l -> (is_clique adj l = true <-> clique_set adj l).
 Proof. exact is_clique_spec. Qed.
 Print Assumptions C19_is_clique_spec.
 
-(* ... and "no self-loops" is needed *)
-Theorem C19_is_clique_selfloop_refuted : exists adj l,
-  (forall u v, adj u v = adj v u) /\ NoDup l /\ is_clique adj l = true /\ ~ clique_set adj l.
-Proof. exact is_clique_selfloop_refuted. Qed.
-Print Assumptions C19_is_clique_selfloop_refuted.
-
-(* with self-loops left out of the count (proposed repair) the test is exact on every graph *)
-Theorem C19_is_clique_noloop_spec : forall adj l,
-  (forall u v, adj u v = adj v u) -> NoDup l -> (is_clique (noloop adj) l = true <-> clique_set adj l).
-Proof. exact is_clique_noloop_spec. Qed.
-Print Assumptions C19_is_clique_noloop_spec.
+(* OLD variant (before eefbefe): counting self-loops as edges accepted a non-clique *)
+Theorem C19_is_clique_pre_eefbefe_selfloop_refuted : exists adj l,
+  (forall u v, adj u v = adj v u) /\ NoDup l /\ is_clique_pre_eefbefe adj l = true /\ ~ clique_set adj l.
+Proof. exact is_clique_pre_eefbefe_selfloop_refuted. Qed.
+Print Assumptions C19_is_clique_pre_eefbefe_selfloop_refuted.
 
 Theorem C19_c_0_spec : forall adj nodes clique i,
   In i (c_0 adj nodes clique) <-> In i nodes /\ ~ In i clique /\ (forall c, In c clique -> adj i c = true).
@@ -143,7 +146,7 @@ Print Assumptions C19_choose_rule.
 
 (* grow: for every selection mode and all draws, the result is a maximal clique of the graph containing the input *)
 Theorem C19_grow : forall adj,
-  (forall u v, adj u v = adj v u) -> (forall u, adj u u = false) ->
+  (forall u v, adj u v = adj v u) ->
   forall nodes s clique draws r, grow adj nodes s clique draws = Ok r ->
   clique_set adj r /\ (forall x, In x clique -> In x r) /\ (forall x, In x r -> In x nodes) /\ NoDup r /\
   c_0 adj nodes r = [].
@@ -151,89 +154,85 @@ Proof. exact grow_sound. Qed.
 Print Assumptions C19_grow.
 
 Theorem C19_swap : forall adj,
-  (forall u v, adj u v = adj v u) -> (forall u, adj u u = false) ->
+  (forall u v, adj u v = adj v u) ->
   forall nodes s clique draws r, swap adj nodes s clique draws = Ok r ->
   clique_set adj r /\ length r = length (dedup clique) /\ (forall x, In x r -> In x nodes) /\ NoDup r.
 Proof. exact swap_sound. Qed.
 Print Assumptions C19_swap.
 
-(* shrink (source as it stands AND repaired): the result is a clique inside the input *)
+(* search: for every number of iterations, mode and draws the result is a clique of the graph, at least as large as the input *)
+Theorem C19_clique_search : forall adj nodes, (forall u v, adj u v = adj v u) ->
+  forall iters s clique draws r, csearch adj nodes iters s clique draws = Ok r ->
+  clique_set adj r /\ (forall x, In x r -> In x nodes) /\ NoDup r /\ length (dedup clique) <= length r.
+Proof. exact csearch_sound. Qed.
+Print Assumptions C19_clique_search.
+
+(* shrink: the result is a clique inside the input *)
 Theorem C19_shrink : forall adj,
-  (forall u v, adj u v = adj v u) -> (forall u, adj u u = false) ->
-  forall nodes fixed s tbl draws r, NoDup tbl -> shrink adj nodes fixed s tbl draws = Ok r ->
+  (forall u v, adj u v = adj v u) ->
+  forall nodes s tbl draws r, NoDup tbl -> shrink_cur adj nodes s tbl draws = Ok r ->
   clique_set adj r /\ (forall x, In x r -> In x tbl) /\ NoDup r.
-Proof. exact shrink_sound. Qed.
+Proof. intros adj Hs nodes. exact (shrink_sound adj Hs nodes true). Qed.
 Print Assumptions C19_shrink.
 
-(* removal rule, documented variant: minimum degree, and minimum weight among those *)
-Theorem C19_shrink_rule_fixed : forall adj nodes s tbl d i,
-  tbl <> [] -> shrink_index adj nodes true s tbl d = Some i ->
+(* removal rule: minimum degree in the subgraph, and minimum weight among those, for every draw *)
+Theorem C19_shrink_rule : forall adj nodes s tbl d i,
+  tbl <> [] -> shrink_index_cur adj nodes s tbl d = Some i ->
   i < length tbl /\
   (forall u, In u tbl -> deg_in adj (nth i tbl 0) tbl <= deg_in adj u tbl) /\
   (forall w, s = Weight w -> forall u, In u tbl -> deg_in adj u tbl = deg_in adj (nth i tbl 0) tbl ->
      (weight_of nodes w (nth i tbl 0%nat) <= weight_of nodes w u)%Z).
 Proof. exact shrink_rule_fixed. Qed.
-Print Assumptions C19_shrink_rule_fixed.
+Print Assumptions C19_shrink_rule.
 
-(* removal rule, source as it stands: holds outside weight mode ... *)
-Theorem C19_shrink_rule_as_is : forall adj nodes s tbl d i,
-  (forall w, s <> Weight w) -> tbl <> [] -> shrink_index adj nodes false s tbl d = Some i ->
-  i < length tbl /\ (forall u, In u tbl -> deg_in adj (nth i tbl 0) tbl <= deg_in adj u tbl).
-Proof. exact shrink_rule_as_is. Qed.
-Print Assumptions C19_shrink_rule_as_is.
-
-(* ... and fails in weight mode: a node that does not have minimum degree is removed *)
-Theorem C19_shrink_weight_rule_refuted : exists adj nodes w tbl d i,
+(* OLD variant (before 5c60841, `fixed := false`): in weight mode a node that does not have minimum degree was removed *)
+Theorem C19_shrink_weight_rule_pre5c60841_refuted : exists adj nodes w tbl d i,
   (forall u v, adj u v = adj v u) /\ (forall u, adj u u = false) /\ NoDup tbl /\
   shrink_index adj nodes false (Weight w) tbl d = Some i /\
   exists u, In u tbl /\ deg_in adj u tbl < deg_in adj (nth i tbl 0) tbl.
 Proof. exact shrink_rule_refuted. Qed.
-Print Assumptions C19_shrink_weight_rule_refuted.
+Print Assumptions C19_shrink_weight_rule_pre5c60841_refuted.
 
 (* ============ subgraph.py ============ *)
-(* resize (both variants, all modes, all draws): every recorded entry is a duplicate-free node subset of exactly its size, within range *)
-Theorem C19_resize_sizes : forall adj nodes fixed s tbl lo hi draws r,
-  NoDup tbl -> NoDup nodes -> resize adj nodes fixed s tbl lo hi draws = ROk r ->
+(* resize (all modes, all draws): every recorded entry is a duplicate-free node subset of exactly its size, within range *)
+Theorem C19_resize_sizes : forall adj nodes s tbl lo hi draws r,
+  NoDup tbl -> NoDup nodes -> resize_cur adj nodes s tbl lo hi draws = ROk r ->
   forall k sub, In (k, sub) r -> length sub = k /\ lo <= k <= hi /\ NoDup sub /\ (forall x, In x sub -> In x nodes).
-Proof. exact resize_sizes. Qed.
+Proof. intros adj nodes. exact (resize_sizes adj nodes true). Qed.
 Print Assumptions C19_resize_sizes.
 
 (* every requested size is present *)
-Theorem C19_resize_covers : forall adj nodes fixed s tbl lo hi draws r,
-  resize adj nodes fixed s tbl lo hi draws = ROk r -> forall k, lo <= k <= hi -> exists sub, In (k, sub) r.
-Proof. exact resize_covers. Qed.
+Theorem C19_resize_covers : forall adj nodes s tbl lo hi draws r,
+  resize_cur adj nodes s tbl lo hi draws = ROk r -> forall k, lo <= k <= hi -> exists sub, In (k, sub) r.
+Proof. intros adj nodes. exact (resize_covers adj nodes true). Qed.
 Print Assumptions C19_resize_covers.
 
 (* grown entries contain the starting subgraph, shrunk entries lie inside it *)
-Theorem C19_resize_nested : forall adj nodes fixed s tbl lo hi draws r,
-  NoDup tbl -> NoDup nodes -> resize adj nodes fixed s tbl lo hi draws = ROk r ->
+Theorem C19_resize_nested : forall adj nodes s tbl lo hi draws r,
+  NoDup tbl -> NoDup nodes -> resize_cur adj nodes s tbl lo hi draws = ROk r ->
   forall k sub, In (k, sub) r ->
   (length tbl <= k -> forall x, In x tbl -> In x sub) /\ (k <= length tbl -> forall x, In x sub -> In x tbl).
-Proof. exact resize_nested. Qed.
+Proof. intros adj nodes. exact (resize_nested adj nodes true). Qed.
 Print Assumptions C19_resize_nested.
 
-(* growth rule, documented variant: highest degree w.r.t. the subgraph, highest weight among those *)
-Theorem C19_resize_grow_rule_fixed : forall adj nodes s sub compl d i,
-  compl <> [] -> grow_index adj nodes true s sub compl d = Some i ->
+(* growth rule: highest degree w.r.t. the subgraph, highest weight among those, for every draw
+   (the removal rule of resize is C19_shrink_rule: the same shrink_index_cur) *)
+Theorem C19_resize_grow_rule : forall adj nodes s sub compl d i,
+  compl <> [] -> grow_index_cur adj nodes s sub compl d = Some i ->
   i < length compl /\
   (forall c, In c compl -> deg_to adj c sub <= deg_to adj (nth i compl 0) sub) /\
   (forall w, s = Weight w -> forall c, In c compl -> deg_to adj c sub = deg_to adj (nth i compl 0) sub ->
      (weight_of nodes w c <= weight_of nodes w (nth i compl 0%nat))%Z).
 Proof. exact grow_index_rule. Qed.
-Print Assumptions C19_resize_grow_rule_fixed.
+Print Assumptions C19_resize_grow_rule.
 
-Theorem C19_resize_grow_rule_as_is : forall adj nodes s sub compl d i,
-  (forall w, s <> Weight w) -> compl <> [] -> grow_index adj nodes false s sub compl d = Some i ->
-  i < length compl /\ (forall c, In c compl -> deg_to adj c sub <= deg_to adj (nth i compl 0) sub).
-Proof. exact grow_rule_as_is. Qed.
-Print Assumptions C19_resize_grow_rule_as_is.
-
-Theorem C19_resize_grow_weight_rule_refuted : exists adj nodes w sub compl d i,
+(* OLD variant (before 5c60841, `fixed := false`): in weight mode a node that does not have the highest degree was added *)
+Theorem C19_resize_grow_weight_rule_pre5c60841_refuted : exists adj nodes w sub compl d i,
   (forall u v, adj u v = adj v u) /\ (forall u, adj u u = false) /\
   grow_index adj nodes false (Weight w) sub compl d = Some i /\
   exists c, In c compl /\ deg_to adj (nth i compl 0) sub < deg_to adj c sub.
 Proof. exact grow_index_refuted. Qed.
-Print Assumptions C19_resize_grow_weight_rule_refuted.
+Print Assumptions C19_resize_grow_weight_rule_pre5c60841_refuted.
 
 (* _update_subgraphs_list: bounded, only offered entries, a strictly denser candidate always gets in, sorted *)
 Theorem C19_update_list_length : forall (l : list entry) t m d, 1 <= m \/ l <> [] ->
@@ -267,9 +266,8 @@ Example C19_ex_simple_graph : (forall u v, adj_of [(0, 1); (1, 2); (0, 2)] u v =
 Proof. split; [apply adj_of_sym|reflexivity]. Qed.
 
 (* Not a theorem (C19 is _partial):
-   - unbounded completeness of orbits (C19_orbits_complete_full_statement) and the unbounded identification of
-     orbit_cardinality with the number of samples (C19_cardinality_full_statement; the multinomial identity is
+   - the unbounded identification of orbit_cardinality with the number of samples (C19_cardinality_full_statement; the multinomial identity is
      proved for all sizes, the count only for the bounded sweep);
    - search/_update_dict as whole-history statements, the probabilities used by event_to_sample, nx.density (modelled as 2e/(n(n-1)) and
      compared, not proved);
-   - the implementation's floating-point orbit_cardinality is not modelled: the exact model is what is proved. *)
+   - nothing is claimed about float arithmetic: the source computes cardinalities with exact integers now. *)
